@@ -196,15 +196,20 @@ CHECKS.update({
         note='Partial: pipeline-level shape by exploration (oracle) + closed examples; accessor level unbounded.',
         design='7/C12', technique='Coq proof (accessor theorems on shapes) + acc correspondence + context oracle'),
     'C18': dict(
-        text='Exact model of Statement.get_type (acc correspondence) with unbounded theorems get_type_keyword (any whitespace/comment '
-             'prefix, any continuation), get_type_cte, get_type_unknown_*, get_type_total; ASCII-case invariance of lexing (C_lex_case). '
-             'The full claim is REFUTED (keyword directly followed by `(`, `.`, `::`; CREATE OR REPLACE with irregular inner whitespace: '
-             'two listed findings). That the leading keyword stays the first significant child through the grouping passes: finite pipeline '
-             'family C18_pipeline_fin (bound in the statement: every DML/DDL word of the regenerated dictionaries x 2 casings x 6 prefixes x '
-             '3 separators x 18 continuations through the whole model pipeline, vm_compute) and the direct oracle over all DML/DDL words x '
-             'casings x prefixes x continuations.',
-        note='Partial (two listed findings; barrier lemma for the passes not proved).',
-        design='7/C18', technique='Coq proof (get_type theorems) + acc correspondence + oracle'),
+        text='UNBOUNDED pipeline-level theorem (Props/C18b.v, Inst/C18Barrier.v): C18_barrier -- for ANY token list pre ++ (ty, kw) :: rest '
+             'with pre whitespace/comments, ty DML or DDL and the decidable guard barrier_guard (the next significant token is not `::`, '
+             '`:=` or an AT TIME ZONE token; at most one `:=` token), grouping with all 25 passes succeeds and get_type() = upper(kw): every '
+             'pass preserves the invariant "the keyword leaf is a direct child of the Statement preceded only by skippable children" '
+             '(generic lemma for the _group driver, per-pass instances, the matching passes via the stack-matcher specification, the scan '
+             'passes); C18_barrier_lexed lifts it through cur_parse on lexer output; C18_barrier_text_partial to texts (prefix of '
+             'whitespace and complete comments, any ASCII casing of every DML/DDL dictionary word, a one-unit separator, any continuation). '
+             'Each conjunct of the guard is shown necessary by a closed refutation; two of them are NEW findings found by the proof '
+             '(keyword before AT TIME ZONE; two `:=` with a stale index). Exact model of Statement.get_type (acc correspondence) with '
+             'get_type_keyword / _cte / _unknown_* / _total; finite families C18_pipeline_fin and C18_create_or_replace_fin; direct oracle '
+             'over all DML/DDL words x casings x prefixes x continuations (three listed findings).',
+        note='Partial: the full claim ("whatever follows") is false of the unchanged tree in the listed ways; the text-level corollary '
+             'covers separators of one whitespace unit (longer runs through C18_barrier_lexed with the lexer output as hypothesis).',
+        design='7/C18', technique='Coq proof (pipeline invariant through all 25 passes; get_type theorems; finite families) + acc correspondence + oracle'),
 })
 
 CHECKS.update({
